@@ -83,11 +83,11 @@ theorem IndGA.getBind {f : BP α → P α β} (h1 : ∀ s e, f (s.withExt e) = f
 theorem IndG.withRecover {f : P α (Option β)} {s : BP α} (h : IndG G f s) : IndG G (withRecover f) s := by
   constructor
   · intro e he
-    rw [withRecover_run, withRecover_run, h.ext e he]
+    rw [withRecover_run_ext, withRecover_run_ext, h.ext e he]
     split <;> rfl
-  · rw [withRecover_run]; split <;> exact h.toks
-  · rw [withRecover_run]; split <;> exact h.cs
-  · rw [withRecover_run]; split <;> exact h.extEq
+  · rw [withRecover_run_ext]; split <;> exact h.toks
+  · rw [withRecover_run_ext]; split <;> exact h.cs
+  · rw [withRecover_run_ext]; split <;> exact h.extEq
 
 theorem IndGA.withRecover {f : P α (Option β)} (h : IndGA G f) : IndGA G (withRecover f) :=
   ⟨fun s => IndG.withRecover (h.all s)⟩
